@@ -77,7 +77,11 @@ FirstPos(p) == \A q \in 1..(p - 1) : cfgP[q] # cfgP[p]
 KeySeq(F) == LET ps == AscSeq({p \in DOMAIN cfgP : FirstPos(p) /\ cfgP[p] \in F})
              IN [k \in DOMAIN ps |-> <<"cin", cfgP[ps[k]]>>]
 \* the done-callbacks registered on input i so far, one per argument position
-LockOps(cbs, i) == LET ps == AscSeq({p \in cbs : cfgP[p] = i}) IN [k \in DOMAIN ps |-> <<"lock", i>>]
+\* (seeded model bug pop_before_lock: the finished input is removed from the pending dict BEFORE the lock is taken)
+LockOps(cbs, i) == LET ps == AscSeq({p \in cbs : cfgP[p] = i}) IN
+                     IF Bug = "pop_before_lock"
+                       THEN [k \in 1..(2 * Len(ps)) |-> IF k % 2 = 1 THEN <<"pop", i>> ELSE <<"lock2", i>>]
+                       ELSE [k \in DOMAIN ps |-> <<"lock", i>>]
 ChainOps(ch) == LET ps == AscSeq(ch) IN [k \in DOMAIN ps |-> <<"cin", cfgP[ps[k]]>>]
 
 Init ==
@@ -118,6 +122,16 @@ HandleDone(s, t, i, more) ==
                                        \o (IF k = 4 THEN <<<<"ocan", 0>>>> ELSE <<>>)
                                        \o more]
 
+\* handle_done after the lock-free pop (pop_before_lock): the decision sees whatever is left in the dict by now
+HandleDone2(s, t, i, more) ==
+  IF s.done THEN [s EXCEPT !.todo[t] = more]
+  ELSE LET rest == s.fs
+           k == s.ist[i]
+       IN IF ~Decides(k, rest) THEN [s EXCEPT !.todo[t] = more]
+          ELSE [s EXCEPT !.done = TRUE,
+                         !.todo[t] = (IF k \in {1, 2} THEN <<<<"wval", i>>>> ELSE IF k = 3 THEN <<<<"wexc", i>>>> ELSE <<>>)
+                                     \o KeySeq(rest) \o (IF k = 4 THEN <<<<"ocan", 0>>>> ELSE <<>>) \o more]
+
 \* ------------------------------------------------------------------ one micro-operation of thread t
 Exec(s, t) ==
   LET h == Head(s.todo[t])
@@ -131,6 +145,9 @@ Exec(s, t) ==
                           ELSE [s EXCEPT !.okv[x] = IF cfgK[x] = 4 /\ ~s.already[x] THEN 1 ELSE 0, !.todo[t] = more]
        [] k = "iret" -> [s EXCEPT !.todo[t] = more, !.evs = Append(@, E2("InputSetRet", "client", 0, x, s.okv[x]))]
        [] k = "lock" -> HandleDone(s, t, x, more)
+       [] k = "pop" -> IF x \notin s.fs THEN [s EXCEPT !.todo[t] = Tail(more)]      \* duplicate: nothing to do
+                       ELSE [s EXCEPT !.fs = @ \ {x}, !.todo[t] = more]
+       [] k = "lock2" -> HandleDone2(s, t, x, more)
        [] k \in {"wval", "wexc"} ->
             IF s.ost = "PENDING"
               THEN [s EXCEPT !.ost = "FINISHED", !.oa = IF k = "wexc" THEN 1 ELSE 0, !.ob = x, !.todo[t] = more]
@@ -150,7 +167,9 @@ Exec(s, t) ==
             [s EXCEPT !.chain = @ \cup {x},
                       !.todo[t] = (IF s.ost = "CANCELLED" THEN <<<<"cin", cfgP[x]>>>> ELSE <<>>) \o <<<<"adc", x>>>> \o more]
        [] k = "adc" ->   \* f.add_done_callback(handle_done): inline if f is already done
-            IF s.ist[cfgP[x]] # 0 THEN [s EXCEPT !.todo[t] = <<<<"lock", cfgP[x]>>>> \o more]
+            IF s.ist[cfgP[x]] # 0
+              THEN [s EXCEPT !.todo[t] = (IF Bug = "pop_before_lock" THEN <<<<"pop", cfgP[x]>>, <<"lock2", cfgP[x]>>>>
+                                          ELSE <<<<"lock", cfgP[x]>>>>) \o more]
                                   ELSE [s EXCEPT !.cb = @ \cup {x}, !.todo[t] = more]
        [] k = "cret" -> [s EXCEPT !.todo[t] = more, !.ready = TRUE,
                                   !.evs = Append(@, Ev("CombRet", "-", "main", 0, -1, -1, -1, -1, 0, "", <<>>))]
